@@ -1,5 +1,6 @@
 import SSDriver.C13
 import SSDriver.C10
+import SSDriver.C17
 /-!
 Line-protocol driver: one JSON object per input line, one output line per input line.
 Run:  lake env lean --run Driver.lean < cases.jsonl
@@ -11,6 +12,7 @@ def dispatch (j : Json) : Except String String := do
   let p ← (← j.getObjVal? "p").getStr?
   match p with
   | "C13" => SS.Drv.C13.handle j
+  | "C17" => SS.Drv.C17.handle j
   | "C10" => SS.Drv.C10.handle j
   | "C05" => SS.Drv.C10.handle j
   | "C16" => SS.Drv.C10.handle j
